@@ -142,9 +142,9 @@ impl Table {
     /// looked at (in order), so that callers can tell whether the hit was the first candidate.
     pub fn lookup(&self, name: &str, module_scope: &str) -> (Option<&Entity>, Vec<String>) {
         let mut tried = vec![];
-        if PRIMITIVES.contains(&name) {
-            return (None, tried);
-        }
+        // (a NAMED reference spelled like a primitive keyword - written `\int32` - is a name like any other: it
+        // designates a user-defined entity of that name if one is in scope, and nothing otherwise; the keyword itself
+        // is MTypeKind::Prim and never comes here)
         if let Some(g) = name.strip_prefix("::") {
             tried.push(g.to_string());
             return (self.get(g), tried);
